@@ -78,3 +78,112 @@ spec fn is_end(d: DFA, s: u32) -> bool {
 }
 
 } // verus!
+verus! {
+
+/// the symbol runs the external command c (as a command or as a zsh compadd)
+spec fn is_cmd(x: Inp, c: Ustr) -> bool {
+    match x {
+        Inp::Command { cmd, fallback_level } => cmd == c,
+        Inp::Compadd { cmd, fallback_level } => cmd == c,
+        _ => false,
+    }
+}
+
+spec fn top_cmd(d: DFA, c: Ustr) -> bool { exists|x: Inp| #[trigger] on_edge(d, x) && is_cmd(x, c) }
+
+spec fn sub_cmd(d: DFA, c: Ustr) -> bool { exists|s: DFA| #[trigger] is_subword_of(d, s) && top_cmd(s, c) }
+
+/// what one transition symbol of d contributes to the command table
+spec fn contrib(d: DFA, x: Inp, c: Ustr) -> bool {
+    is_cmd(x, c) || (x is Subword && 0 <= dfa_ix(x->subdfa) < d.subdfas.store@.len() && top_cmd(d.subdfas.store@[dfa_ix(x->subdfa)], c))
+}
+
+spec fn contrib_upto(d: DFA, ins: Seq<&Inp>, n: int, c: Ustr) -> bool {
+    exists|m: int| 0 <= m < n && m < ins.len() && #[trigger] contrib(d, *ins[m], c)
+}
+
+spec fn cmd_upto(ins: Seq<&Inp>, n: int, c: Ustr) -> bool {
+    exists|m: int| 0 <= m < n && m < ins.len() && #[trigger] is_cmd(*ins[m], c)
+}
+
+} // verus!
+verus! {
+
+proof fn lemma_contrib_step(d: DFA, ins: Seq<&Inp>, n: int, c: Ustr)
+    requires 0 <= n < ins.len()
+    ensures contrib_upto(d, ins, n + 1, c) == (contrib_upto(d, ins, n, c) || contrib(d, *ins[n], c))
+{
+    if contrib_upto(d, ins, n + 1, c) {
+        let m = choose|m: int| 0 <= m < n + 1 && m < ins.len() && #[trigger] contrib(d, *ins[m], c);
+        if m < n { assert(contrib_upto(d, ins, n, c)); }
+    }
+    if contrib_upto(d, ins, n, c) {
+        let m = choose|m: int| 0 <= m < n && m < ins.len() && #[trigger] contrib(d, *ins[m], c);
+        assert(contrib_upto(d, ins, n + 1, c));
+    }
+    if contrib(d, *ins[n], c) { assert(contrib_upto(d, ins, n + 1, c)); }
+}
+
+proof fn lemma_cmd_step(ins: Seq<&Inp>, n: int, c: Ustr)
+    requires 0 <= n < ins.len()
+    ensures cmd_upto(ins, n + 1, c) == (cmd_upto(ins, n, c) || is_cmd(*ins[n], c))
+{
+    if cmd_upto(ins, n + 1, c) {
+        let m = choose|m: int| 0 <= m < n + 1 && m < ins.len() && #[trigger] is_cmd(*ins[m], c);
+        if m < n { assert(cmd_upto(ins, n, c)); }
+    }
+    if cmd_upto(ins, n, c) {
+        let m = choose|m: int| 0 <= m < n && m < ins.len() && #[trigger] is_cmd(*ins[m], c);
+        assert(cmd_upto(ins, n + 1, c));
+    }
+    if is_cmd(*ins[n], c) { assert(cmd_upto(ins, n + 1, c)); }
+}
+
+/// all symbols of the vector scanned = the symbols on the edges
+proof fn lemma_cmd_all(d: DFA, ins: Seq<&Inp>, c: Ustr)
+    requires
+        forall|k: int| 0 <= k < ins.len() ==> on_edge(d, *(#[trigger] ins[k])),
+        forall|x: Inp| on_edge(d, x) ==> exists|k: int| 0 <= k < ins.len() && *(#[trigger] ins[k]) == x,
+    ensures cmd_upto(ins, ins.len() as int, c) == top_cmd(d, c)
+{
+    if cmd_upto(ins, ins.len() as int, c) {
+        let m = choose|m: int| 0 <= m < ins.len() && m < ins.len() && #[trigger] is_cmd(*ins[m], c);
+        assert(on_edge(d, *ins[m]));
+    }
+    if top_cmd(d, c) {
+        let x = choose|x: Inp| #[trigger] on_edge(d, x) && is_cmd(x, c);
+        let k = choose|k: int| 0 <= k < ins.len() && *(#[trigger] ins[k]) == x;
+        assert(is_cmd(*ins[k], c));
+    }
+}
+
+proof fn lemma_contrib_all(d: DFA, ins: Seq<&Inp>, c: Ustr)
+    requires
+        forall|k: int| 0 <= k < ins.len() ==> on_edge(d, *(#[trigger] ins[k])),
+        forall|x: Inp| on_edge(d, x) ==> exists|k: int| 0 <= k < ins.len() && *(#[trigger] ins[k]) == x,
+    ensures contrib_upto(d, ins, ins.len() as int, c) == (top_cmd(d, c) || sub_cmd(d, c))
+{
+    if contrib_upto(d, ins, ins.len() as int, c) {
+        let m = choose|m: int| 0 <= m < ins.len() && m < ins.len() && #[trigger] contrib(d, *ins[m], c);
+        let x = *ins[m];
+        assert(on_edge(d, x));
+        if !is_cmd(x, c) {
+            let s = d.subdfas.store@[dfa_ix(x->subdfa)];
+            assert(is_subword_of(d, s));
+            assert(sub_cmd(d, c));
+        }
+    }
+    if top_cmd(d, c) {
+        let x = choose|x: Inp| #[trigger] on_edge(d, x) && is_cmd(x, c);
+        let k = choose|k: int| 0 <= k < ins.len() && *(#[trigger] ins[k]) == x;
+        assert(contrib(d, *ins[k], c));
+    }
+    if sub_cmd(d, c) {
+        let s = choose|s: DFA| #[trigger] is_subword_of(d, s) && top_cmd(s, c);
+        let x = choose|x: Inp| #[trigger] on_edge(d, x) && x is Subword && 0 <= dfa_ix(x->subdfa) < d.subdfas.store@.len() && d.subdfas.store@[dfa_ix(x->subdfa)] == s;
+        let k = choose|k: int| 0 <= k < ins.len() && *(#[trigger] ins[k]) == x;
+        assert(contrib(d, *ins[k], c));
+    }
+}
+
+} // verus!
